@@ -727,6 +727,12 @@ func derefRefsSlice(s *ssa.Slice) []ssa.Instruction {
 
 // setterArgJustified checks the structural justification of one call of the unchecked setter.
 func setterArgJustified(fn *ssa.Function, call *ssa.Call, kind string) (bool, string) {
+	if len(call.Common().Args) == 5 {
+		return setterWordsJustified(fn, call, kind)
+	}
+	if len(call.Common().Args) != 2 {
+		return false, "unexpected signature of the unchecked setter"
+	}
 	arg := call.Common().Args[1]
 	// the limbs may be passed by address or by value: a value loaded from a local array is treated like its address at
 	// the point of the load; a value that is directly the result of a call is followed into that call
@@ -808,6 +814,61 @@ func setterArgJustified(fn *ssa.Function, call *ssa.Call, kind string) (bool, st
 			return true, "limbs {x,y,0,0}: value < 2^128 < modulus"
 		}
 		return false, "upper limbs of the literal are not the constant 0"
+	}
+	return false, "unknown justification"
+}
+
+// setterWordsJustified: the unchecked setter takes the four limbs as separate words (l0, l1, l2, l3).
+func setterWordsJustified(fn *ssa.Function, call *ssa.Call, kind string) (bool, string) {
+	ws := call.Common().Args[1:]
+	isZero := func(v ssa.Value) bool {
+		c, ok := v.(*ssa.Const)
+		return ok && c.Value != nil && c.Uint64() == 0
+	}
+	switch kind {
+	case "literal":
+		if isZero(ws[1]) && isZero(ws[2]) && isZero(ws[3]) {
+			return true, "limbs (x,0,0,0): value < 2^64 < modulus"
+		}
+		return false, "upper limbs are not the constant 0"
+	case "128-bit":
+		if isZero(ws[2]) && isZero(ws[3]) {
+			return true, "limbs (x,y,0,0): value < 2^128 < modulus"
+		}
+		return false, "upper limbs are not the constant 0"
+	case "reduced", "short":
+		// the words must be elements 0..3, in order, of one local limb array that is justified at each of the loads
+		var arr ssa.Value
+		for i, w := range ws {
+			ld, ok := w.(*ssa.UnOp)
+			if !ok || ld.Op != token.MUL {
+				return false, "a limb word is not loaded from a limb array"
+			}
+			ia, ok := ld.X.(*ssa.IndexAddr)
+			if !ok {
+				return false, "a limb word is not an element of a limb array"
+			}
+			k, isC := ia.Index.(*ssa.Const)
+			if !isC || k.Int64() != int64(i) {
+				return false, "limb words are not elements 0..3 in order"
+			}
+			if arr == nil {
+				arr = ia.X
+			} else if arr != ia.X {
+				return false, "limb words come from different arrays"
+			}
+			if kind == "reduced" {
+				if !reducedBefore(fn, arr, ld, 0) {
+					return false, "the limb array is not the output of a dominating reduceSaturated at the load of word " + fmt.Sprint(i)
+				}
+			} else if ok, why := shortJustified(fn, arr, nil, ld, 0); !ok {
+				return false, why
+			}
+		}
+		if kind == "reduced" {
+			return true, "the words are the limbs of a reduceSaturated output (value < modulus)"
+		}
+		return true, "the words are the limbs of a short (< 2^248) value"
 	}
 	return false, "unknown justification"
 }
@@ -1212,38 +1273,31 @@ func checkFoldShape(c *Ctx, prog *load.Program, s ringSpec, name string) {
 // c02Constructors: NewScalarFromCanonicalBytes returns nil on error, NewScalarFromBytes = SetBytes on a fresh scalar.
 func c02Constructors(c *Ctx, prog *load.Program, s ringSpec) {
 	upper := s.upper()
-	cfg := &absint.Config{Prog: prog}
-	upper.set.Apply(cfg)
-	ex := absint.New(cfg)
-	fn := ex.Func(models.Mod + ".NewScalarFromCanonicalBytes")
-	if fn == nil {
+	src := absint.SymBytes("src", 32, 0)
+	r := RunFn(prog, upper.set, models.Mod+".NewScalarFromCanonicalBytes", &RunOpts{Pre: func(ex *absint.Exec, st *absint.State, args []absint.Val) {
+		args[0] = ex.ByteArrayPtr(st, src, "src")
+	}})
+	if r.Fn == nil {
 		c.R.Unknown("C02-2d", "NewScalarFromCanonicalBytes", "", "not found")
 		return
 	}
-	st := ex.NewState()
-	b := absint.SymBytes("src", 32, 0)
-	_, err := ex.Call(st, fn, []absint.Val{ex.ByteArrayPtr(st, b, "src")})
-	pos := PosOf(prog, fn)
-	if err != nil || len(ex.Fails) > 0 {
-		c.R.Unknown("C02-2d", "NewScalarFromCanonicalBytes", pos, fmt.Sprintf("%v %v", err, ex.Fails))
+	pos := PosOf(prog, r.Fn)
+	if p := runComplete(r); p != "" {
+		c.R.Unknown("C02-2d", "NewScalarFromCanonicalBytes", pos, p)
 		return
 	}
-	okAll := len(ex.Returns) >= 2
-	for _, r := range ex.Returns {
-		tu, _ := r.Results.(absint.Tuple)
-		if len(tu) != 2 {
-			okAll = false
-			continue
-		}
-		errNil := isNilIface(r.St.Resolve(tu[1]))
-		objNil := isNilVal(r.St.Resolve(tu[0]))
-		gs := GuardSet(r.Guard)
-		rejecting := gs["ge_n(src)"]
-		if rejecting != objNil || rejecting == errNil {
-			okAll = false
+	// whatever the shape of the returns (two exits, or one exit handing on the decoder's results): the error is nil
+	// exactly for src < n, and the object is nil exactly when the error is not
+	acc, prob := acceptFormula(r, 1)
+	nilObj, prob2 := nilFormula(r, 0)
+	okAll, detail := false, prob+prob2
+	if prob == "" && prob2 == "" {
+		okAll, detail = Equivalent(acc, fNot(FTerm(models.GeModulus(sym.Fn, src))))
+		if okAll {
+			okAll, detail = Equivalent(nilObj, fNot(acc))
 		}
 	}
-	c.R.Decide(okAll, "C02-2d", "NewScalarFromCanonicalBytes", pos, "returns (nil, err) iff src >= n, otherwise (scalar, nil)", "constructor does not return nil exactly on the rejecting path")
+	c.R.Decide(okAll, "C02-2d", "NewScalarFromCanonicalBytes", pos, "returns (nil, err) iff src >= n, otherwise (scalar, nil)", "constructor does not return nil exactly on the rejecting path: "+detail)
 	c.R.Floor("C02-2d", 1)
 }
 
